@@ -471,6 +471,10 @@ def str_methods(interp, s, name):
         if name in ('startswith', 'endswith', 'lower', 'upper', 'split', 'replace', 'index', 'strip', 'join'):
             def call(interp, *a):
                 if name == 'join':
+                    sq = as_seq_or_none(interp, a[0]) if s == '' and isinstance(a[0], Value) else None
+                    if sq is not None and not sq.is_concrete_len():
+                        # ''.join(list of single characters) of symbolic length: same codes, kind 'str'
+                        return sq.retag('str') if hasattr(sq, 'retag') else SSeq(sq.length, sq.get, 'str')
                     parts = interp.iter_concrete(a[0])
                     if all(isinstance(p, str) for p in parts):
                         return s.join(parts)
